@@ -267,6 +267,7 @@ def write_evidence(results, seed, tier, wall, nviol, extra=None):
         'preempted_in_module': {k[11:]: v for k, v in sorted(tot.items()) if k.startswith('preempt_in.')},
         'reach_probes': {k[6:]: v for k, v in sorted(tot.items()) if k.startswith('probe.')},
         'pool_wide_frame_checks': tot.get('pool_checks', 0),
+        'module_state_digests': tot.get('module_digests', 0),
         'mutators_applied': tot.get('mutator_applied', 0),
         'catalogue_groups_exercised': entries_hit,
         'catalogue_entries_unavailable': tot.get('entry_unavailable', 0),
@@ -321,6 +322,15 @@ def cmd_batch(tier, argv):
     herr = [r for r in results if 'harness_error' in r]
     n_new, n_known, trouble = report_violations(results, seed, tier)
     extra = {}
+    # replay-determinism spot check on every batch: the first runs of each engine are executed
+    # again (other worker processes, other position in the batch); their event logs must be identical
+    first = dict(((r['engine'], r['idx']), r.get('digest')) for r in results if r['idx'] < 6)
+    again = _digests(seed, list(range(6)), [e for e in 'HNT' if counts.get(e)], 8)
+    bad = [k for k, d in again.items() if first.get(k) is not None and first[k] != d]
+    extra['determinism_spot_check'] = {'runs_reexecuted': len(again), 'mismatches': len(bad)}
+    if bad:
+        print('HARNESS-ERROR: runs %s are not reproducible (event-log digests differ)' % bad[:4])
+        trouble = True
     if tier == 'thorough' and '--no-selftest' not in argv:
         ok, info = determinism_sample(seed, 40)
         extra['determinism_sample'] = info
